@@ -974,7 +974,7 @@ def clean(lines):
             break
 
 
-def drive(run, profile, nscripts, nops, theorem_pid=None, asan=False, reopen=False, extra_check=None, audit=False, geometry=0, boundary=0, bigfile=0, slack=True, destroy=0):
+def drive(run, profile, nscripts, nops, theorem_pid=None, asan=False, reopen=False, extra_check=None, audit=False, geometry=0, boundary=0, bigfile=0, slack=True, destroy=0, thin=0):
     """common body of the KV checks"""
     proofs_ok = run.proofs(theorem_pid or run.pid)
     impl = vlib.build_harness("h_kv", "asan" if asan else "plain")
@@ -1007,6 +1007,10 @@ def drive(run, profile, nscripts, nops, theorem_pid=None, asan=False, reopen=Fal
             rng = run.rng.fork()
             ls, meta = geometry_script(rng, os.path.join(work, "g%d.db" % n), wal=rng.below(2))
             scripts.append(("geom%d" % n, ls, meta))
+        for n in range(thin or 0):
+            rng = run.rng.fork()
+            ls, meta = thin_script(rng, os.path.join(work, "t%d.db" % n), wal=rng.below(2))
+            scripts.append(("thin%d" % n, ls, meta))
         for n in range(destroy or 0):
             rng = run.rng.fork()
             ls, meta = destroy_script(rng, os.path.join(work, "d%d.db" % n), wal=rng.below(2))
@@ -1246,6 +1250,39 @@ def boundary_script(rng, path, wal=0):
                 L.append("struct 0")
     L += ["dump 0", "rdump 0", "struct 0", "close", "open %s %d 0 0 0" % (path, wal), "db 0 1 000", "dump 0", "struct 0", "close"]
     return L, {"modes": ["000"], "wal": wal}
+
+
+def thin_script(rng, path, wal=0):
+    """a database of many nodes is thinned out to a window of records (whole node pages of 16 nodes left with one or two
+    live nodes in any slot), then the window itself is deleted key by key (each node vanishes when its last key goes),
+    while ANOTHER database allocates space (large metadata, large values) that would land on any page released too
+    early; everything is read back, structure walks and syncs in between let the independent reader look at the file."""
+    L = ["open %s %d 0 1 0" % (path, wal), "db 0 1 000", "db 1 2 000"]
+    n = rng.choice([481, 512, 520, 700, 1000])
+    for i in range(n):
+        L.append("put 0 %s 0 %s 0 0" % (hexb(b"k%05d" % i), hexb(b"v%d" % (i % 7))))
+    width = rng.choice([2, 33, 40, 64, 65, 96])
+    a = rng.choice([n - width, n - width - 1, 0, rng.below(max(1, n - width)), max(0, n - width - 32)])
+    keep = list(range(a, min(n, a + width)))
+    ks = set(keep)
+    for i in range(n):
+        if i not in ks:
+            L.append("del 0 %s 0" % hexb(b"k%05d" % i))
+    L += ["struct 0", "sync"]
+    order = list(keep) if rng.chance(1, 2) else list(reversed(keep))
+    cut = rng.choice([1, 2, len(order) // 2, max(1, len(order) - 33), max(1, len(order) - 1)])
+    for j, i in enumerate(order[:cut]):
+        L.append("del 0 %s 0" % hexb(b"k%05d" % i))
+        if j % 16 == 15:
+            L += ["struct 0"]
+    L += ["struct 0", "sync"]
+    L.append("setmeta 1 %s" % hexb(rng.bytes(rng.choice([4096, 9000]))))
+    for i in range(rng.choice([3, 12])):
+        L.append("put 1 %s 0 %s 0 0" % (hexb(b"o%04d" % i), hexb(rng.bytes(rng.choice([3000, 700])))))
+    for i in order[cut:][:40]:
+        L.append("get 0 %s 0" % hexb(b"k%05d" % i))
+    L += ["dump 0", "struct 0", "dump 1", "sync", "close", "open %s %d 0 0 0" % (path, wal), "db 0 1 000", "db 1 2 000", "dump 0", "dump 1", "getmeta 1 10000", "close"]
+    return L, {"modes": ["000", "000"], "wal": wal}
 
 
 def destroy_script(rng, path, wal=0):
